@@ -128,6 +128,27 @@ def run(ctx):
                "`!dbfile.exists()` is tested without a lock and then the database file is unlinked and its schema created: of two first invocations one can unlink the other's fresh database or open a schema-less file")
     else:
         ctx.ob("R16.4", "init|db-creation-under-lock", True, where=init.span, detail="no destructive action on the database file in init")
+    # ---- R16.12 (seed C16-13): .. and that lock is the exclusive one, held without a gap from the test to the action
+    ctx.rule("R16.12", "the init lock that covers `does the database exist` and the unlink / schema creation is taken exclusively and is not released in between: a shared lock lets two first invocations both see `no database`, and a lock traded in (unlock, lock again) without testing again lets the second one unlink the database the first has just created")
+    if destructive:
+        ex_calls2 = [i for i in iba.calls(r"std::path::Path::exists") if any(iba.path([i], [x]) for x in destructive)]
+        waits = [l for l in iba.calls(r"state::Lock::wait_lock") if any(iba.dominates(l, x) for x in ex_calls2)]
+        kinds_ = []
+        for l in waits:
+            a_ = init.blocks[l]["term"]["args"][1] if len(init.blocks[l]["term"]["args"]) > 1 else None
+            v_ = (op_const(a_) or {}).get("variant") if a_ is not None else None
+            if v_ is None and a_ is not None and op_local(a_) is not None:
+                d_ = iba.single_def(op_local(a_))
+                if d_ and d_[0] == "stmt" and d_[3]["k"] == "agg":
+                    v_ = d_[3].get("variant")
+            kinds_.append(v_)
+        excl = bool(waits) and all(k_ == "Exclusive" for k_ in kinds_)
+        ctx.ob("R16.12", "init|existence-test-under-the-exclusive-lock", excl, where=ctx.where(init, waits[0]) if waits else init.span,
+               detail="wait_lock(Exclusive) dominates the existence test" if excl else "the lock held at the existence test is %s" % (kinds_ or "missing"))
+        unlocks = iba.calls(r"state::Lock::unlock")
+        gap = [u for u in unlocks if any(iba.path([e_], [u], incl=True) is not None for e_ in ex_calls2) and any(iba.path([u], [x], incl=True) is not None for x in destructive)]
+        ctx.ob("R16.12", "init|lock-held-from-test-to-action", not gap, where=ctx.where(init, gap[0]) if gap else init.span,
+               detail="no unlock between the existence test and the unlink / schema creation" if not gap else "the lock is released between the existence test and the destructive action (and the test is not repeated)")
 
     # ---- R16.5
     fn = prog.one(r"state::File::from_name")
